@@ -134,7 +134,9 @@ def main(run, tier):
     vlq = importlib.import_module('calmjs.parse.vlq')
     run.explanation = ('Names / Bookkeeper / Book state machines and normalize_mapping_line (loop contract over lines of any length: what a '
                        'linearly interpolating consumer sees at every input segment) by VCs from the real AST (E1, z3); which path is made '
-                       'relative to which in verify_write_sourcemap_args (E1); sourcemap.write only by a bounded stand-in against an '
+                       'relative to which in verify_write_sourcemap_args (E1); sourcemap.write with both loops cut: every positioned piece '
+                       'is mapped at the column where it is written to its own file / line / column / name, a mapping line ends exactly '
+                       'after a piece ending in CR or LF (E1); the composition of the layers only by a bounded stand-in against an '
                        'independent Source Map V3 decoder (spec/sourcemap_v3.py); VLQ layer proved under C10')
     for f in ('calmjs.parse.sourcemap', 'calmjs.parse.vlq'):
         run.function(f, scratch.sha256_file(scratch.module_path(f))[:16])
@@ -165,6 +167,19 @@ def main(run, tier):
                     yield (line, carry)
     nconc = Concrete('calmjs.parse.sourcemap:normalize_mapping_line', _ncall, _npost, _ninputs, bound='lines of <= 3 segments over 10 shapes')
     verify_functions(run, cnorm.build(sm), {}, {nconc.qualname: nconc}, tier=tier, both=(tier == 'thorough'))
+    # ---- E1: sourcemap.write, both loops cut (contracts/smwrite.py); witness inputs = the synthetic streams below
+    import contracts.smwrite as csm
+
+    def _wcall(args):
+        return check_stream(sm, args[0], False)
+
+    def _wpost(args, res):
+        if isinstance(res, Exception):
+            return 'raised %r' % (res,)
+        return res[0] if res else None
+    wconc = Concrete('calmjs.parse.sourcemap:write', _wcall, _wpost, lambda t_, s_: ((fr,) for fr in synthetic_streams('quick', s_)),
+                     bound='the synthetic fragment streams of rt.sourcemap.synthetic, normalize off')
+    verify_functions(run, csm.build(sm), {}, {wconc.qualname: wconc}, tier=tier)
     # ---- bounded: normalize_mapping_line against its decode-view post-condition, exhaustively over short lines
     from spec import sourcemap_v3 as _v3
     segs = [(), (0,), (2,)] + [(dc, ds, dl, dsc) for dc in (0, 3) for ds in (0, 1, -1) for dl in (0, 1, -1) for dsc in (0, 3, -2)]
